@@ -33,6 +33,8 @@ def eval_ref(ref, src):
         return {'dbl': x * 2, 'neg': -x, 'inc': x + 1, 'str': f"v{x}"}[ref['f']]
     if k == 'bind2':
         return src[ref['s']]['x'] + src[ref['s2']]['y']
+    if k == 'abind':          # bound coroutine function: applied when its task completes (op 'drain')
+        return src[ref['s']][ref['p']] + 1
     if k == 'method':
         return src[ref['s']]['x'] + 1
     if k == 'rx':
@@ -96,7 +98,10 @@ class RefsWorld:
         if pname == 't':
             k = rng.choice(['bind', 'rx'])
             return {'k': k, 's': rng.randrange(ns), 'p': rng.choice(['x', 'y']), 'f': 'str'}
-        k = weighted(rng, [('param', 4), ('bind', 3), ('bind2', 1), ('method', 1.5), ('rx', 2)])
+        k = weighted(rng, [('param', 4), ('bind', 3), ('bind2', 1), ('method', 1.5), ('rx', 2),
+                           ('abind', 1.2 if depth == 0 and pname in ('a', 'b') else 0)])
+        if k == 'abind':
+            return {'k': k, 's': rng.randrange(ns), 'p': rng.choice(['x', 'y'])}
         if k == 'param':
             return {'k': k, 's': rng.randrange(ns), 'p': rng.choice(['x', 'y'])}
         if k == 'bind':
@@ -136,7 +141,8 @@ class RefsWorld:
                 k = weighted(rng, [('plain_bad', 3), ('link_bad', 4), ('const', 2), ('ro', 1), ('clsset', 1), ('update_bad', 2), ('ctor_bad', 1.5)])
                 after_reject = 2
             else:
-                k = weighted(rng, [('src', 8), ('link', 5), ('plain', 2.5), ('update1', 1), ('uctx_open', 1), ('uctx_close', 1.2), ('ctor', 0.6)])
+                k = weighted(rng, [('src', 8), ('link', 5), ('plain', 2.5), ('update1', 1), ('uctx_open', 1), ('uctx_close', 1.2), ('ctor', 0.6),
+                                   ('drain', 1.5), ('step', 2)])
             t = rng.randrange(3)
             pn = rng.choice(TPARAMS[:4])
             if k == 'src':
@@ -158,6 +164,10 @@ class RefsWorld:
             elif k == 'ctor':
                 kw = {p: {'ref': self.gen_ref(rng, p, ns)} for p in TPARAMS if rng.random() < 0.4}
                 ops.append({'op': 'ctor', 'kw': kw})
+            elif k == 'drain':
+                ops.append({'op': 'drain'})
+            elif k == 'step':
+                ops.append({'op': 'step', 'n': rng.randint(1, 3)})
             elif k == 'plain_bad':
                 pn = rng.choice(['a', 'b', 't'])
                 v = {'a': rng.choice([11, -1, 'x']), 'b': rng.choice([99, None]), 't': rng.choice(['V1', 'v', 7])}[pn]
@@ -234,8 +244,15 @@ class RefsWorld:
 
     # ----------------------------------------------------------------------------------------- execution
     def run(self, case):
+        from ..simloop import SimLoop
+        loop = SimLoop()
+        loop.install()
         r = _Run(case)
-        r.execute()
+        r.loop = loop
+        try:
+            r.execute()
+        finally:
+            loop.shutdown()
         return r.out
 
 
@@ -248,6 +265,8 @@ class _Run:
         self.out = Outcome()
         self.elog = []          # universal event log
         self.rejected_on = {}   # (target, parameter) -> description of the last rejected attempt since its last accepted one
+        self.pending = set()    # (target, parameter) whose asynchronous link has an evaluation in flight (applied at the next drain)
+        self.unknown = set()    # asynchronous links whose latest evaluation was invalid: value not decided until a valid one completes
         self.step = 0
 
     def viol(self, clause, detail):
@@ -313,6 +332,12 @@ class _Run:
             return param.bind(f, getattr(self.src[ref['s']].param, ref['p']))
         if k == 'bind2':
             return param.bind(lambda x, y: x + y, self.src[ref['s']].param.x, self.src[ref['s2']].param.y)
+        if k == 'abind':
+            async def later(x):
+                import asyncio
+                await asyncio.sleep(0)
+                return x + 1
+            return param.bind(later, getattr(self.src[ref['s']].param, ref['p']))
         if k == 'method':
             return self.src[ref['s']].m
         if k == 'rx':
@@ -336,6 +361,8 @@ class _Run:
                 v = eval_ref(d['ref'], self.msrc)
                 real_kw[pn] = self.make_ref(d['ref'])
                 links[pn] = d['ref']
+                if d['ref']['k'] == 'abind':
+                    continue            # nothing is applied (or validated) before the task completes
             else:
                 v = d['v']
                 real_kw[pn] = v
@@ -361,6 +388,7 @@ class _Run:
         self.observe(obj, f"T{idx}", TPARAMS)
         self.tgt.append(obj)
         self.links.append(links)
+        self.pending |= {(idx, pn) for pn, r in links.items() if r['k'] == 'abind'}
         self.mval.append(vals)
         self.uctx.append([])
 
@@ -393,6 +421,8 @@ class _Run:
                 ref = self.links[ti].get(pn)
                 exp = self.mval[ti][pn]
                 if ref is not None and (ref_sources(ref) & self.tainted_params()):
+                    continue
+                if (ti, pn) in self.pending or ((ti, pn) in self.unknown and ref is not None and ref['k'] == 'abind'):
                     continue
                 got = getattr(t, pn)
                 if got != exp or type(got) is not type(exp):
@@ -428,6 +458,10 @@ class _Run:
         allok = True
         for ti in range(len(self.tgt)):
             for pn, ref in self.links[ti].items():
+                if ref['k'] == 'abind':
+                    # every synchronisation of the object re-evaluates its asynchronous references
+                    self.pending.add((ti, pn))
+                    continue
                 if (s, p) in ref_sources(ref):
                     v = eval_ref(ref, self.msrc)
                     if valid_for(pn, v):
@@ -488,18 +522,36 @@ class _Run:
                 self.tainted.add((s, op['p']))
                 self.out.stats['fault.source_went_invalid'] += 1
             return
+        if k == 'drain':
+            self.drain()
+            return
+        if k == 'step':
+            # let pending tasks advance a little (they may start, suspend or finish): links with an evaluation in
+            # flight stay unchecked until the next drain, everything else must keep mirroring
+            for _ in range(op.get('n', 1)):
+                self.loop.step()
+            return
         ti = op.get('t', 0) % nt
         t = self.tgt[ti]
         if k == 'link':
             pn, ref = op['p'], op['ref']
             v = eval_ref(ref, self.msrc)
-            ok = valid_for(pn, v) and pn != 'k'
+            is_async = ref['k'] == 'abind'
+            ok = (valid_for(pn, v) or is_async) and pn != 'k'
             robj = self.make_ref(ref)
             if pn in self.links[ti]:
                 self.out.stats['probe.relink'] += 1
+                if (ti, pn) in self.pending:
+                    self.out.stats['probe.relink_while_async_pending'] += 1
             if self.attempt(lambda: setattr(t, pn, robj), ok, f"link T{ti}.{pn} <- {ref} (resolves to {v!r})", ti, pn):
                 self.links[ti][pn] = ref
-                self.mval[ti][pn] = v
+                if is_async:
+                    self.pending.add((ti, pn))
+                else:
+                    self.mval[ti][pn] = v
+                    self.pending.discard((ti, pn))
+                    self.unknown.discard((ti, pn))
+                self.unknown.discard((ti, pn))
                 self.relinked = True
         elif k in ('plain', 'update1'):
             pn, v = op['p'], op['v']
@@ -515,6 +567,8 @@ class _Run:
                     self.relinked = True
                 self.links[ti].pop(pn, None)
                 self.mval[ti][pn] = v
+                self.pending.discard((ti, pn))
+                self.unknown.discard((ti, pn))
         elif k == 'uctx_open':
             pn, v = op['p'], op['v']
             if not valid_for(pn, v) or len(self.uctx[ti]) >= 2:
@@ -528,12 +582,14 @@ class _Run:
                 self.uctx[ti].append((holder['cm'], pn, self.mval[ti][pn], self.links[ti].get(pn)))
                 self.links[ti].pop(pn, None)
                 self.mval[ti][pn] = v
+                self.pending.discard((ti, pn))
+                self.unknown.discard((ti, pn))
                 self.out.stats['probe.update_ctx'] += 1
         elif k == 'uctx_close':
             if not self.uctx[ti]:
                 return
             cm, pn, oldv, oldlink = self.uctx[ti].pop()
-            restorable = oldlink is None or valid_for(pn, eval_ref(oldlink, self.msrc))
+            restorable = oldlink is None or oldlink['k'] == 'abind' or valid_for(pn, eval_ref(oldlink, self.msrc))
             # a reference whose source is tainted may hold a stale (cached) value: either outcome is acceptable
             stale = oldlink is not None and bool(ref_sources(oldlink) & self.tainted)
             try:
@@ -549,7 +605,9 @@ class _Run:
                 return
             if oldlink is not None:
                 self.links[ti][pn] = oldlink
-                if restorable:
+                if oldlink['k'] == 'abind':
+                    self.pending.add((ti, pn))      # re-evaluated; the value inside the context stays until the task completes
+                elif restorable:
                     self.mval[ti][pn] = eval_ref(oldlink, self.msrc)
             else:
                 self.links[ti].pop(pn, None)
@@ -579,8 +637,23 @@ class _Run:
         elif k == 'ctor':
             self.construct(op['kw'])
 
-    def msrc_valid_for_const(self):
-        pass
+    def drain(self):
+        """let every pending task run to completion (FIFO): afterwards asynchronous links mirror their reference too"""
+        self.loop.drain(2000)
+        for (ti, pn) in sorted(self.pending):
+            ref = self.links[ti].get(pn)
+            if ref is not None and ref['k'] == 'abind':
+                v = eval_ref(ref, self.msrc)
+                if valid_for(pn, v):
+                    self.mval[ti][pn] = v
+                    self.unknown.discard((ti, pn))
+                else:
+                    # the latest evaluation is rejected when it completes; which earlier (valid) evaluation got to
+                    # complete before being superseded depends on how far the loop had been stepped: not decided
+                    self.unknown.add((ti, pn))
+        if self.pending:
+            self.out.stats['probe.async_links_completed'] += 1
+        self.pending.clear()
 
     def execute(self):
         out = self.out
@@ -603,6 +676,10 @@ class _Run:
             nl = sum(len(l) for l in self.links)
             kinds = sorted({r['k'] for l in self.links for r in l.values()})
             states.append(f"{nl}|{kinds}|{len(self.tainted)}")
+        if not out.violations:
+            self.step = len(self.case['ops']) + 1
+            self.drain()
+            self.check_mirror('after the final drain')
         out.states = tuple(states)
         st = out.stats
         prop = self.case['prop']
